@@ -304,7 +304,7 @@ DEVICES = {
     "C01": "; now and then 255-20000 generated children of the root; whole-value lookalike strings (Infinity, null, 1.0, long digit runs, JSON fragments); the document is decoded once under the default options first, and once more after ONE option was flipped through its own setter",
     "C02": "; attribute prefix reached through SetAttrPrefix or PrependAttrWithHyphen; lookalike strings",
     "C03": "; Go-typed numbers, shared sub-structure, key prefix '_' mode, options changed and restored through the documented calls before the call (optionDetour); whole floats up to 2^64",
-    "C04": "; attributes id / x:id / xmlns:id in one tag (sequence keys keep prefixes); '> <' inside comments, PIs, directives and CDATA; chains 50-70 deep, texts > 4096 bytes, 17-40 attributes",
+    "C04": "; attributes id / x:id / xmlns:id in one tag (sequence keys keep prefixes); '> <' inside comments, PIs, directives and CDATA; chains 50-70 deep, texts > 4096 bytes, 17-40 attributes; a quarter of the cases under keep-spaces (edge blanks are content)",
     "C05": "; a twelfth of the strings are 7-70 special characters only (quote-heavy)",
     "C06": "; lookalike strings, shared sub-structure in the encoded Map, inputs around 512/4096/65536 bytes",
     "C07": "; 3-70 wrapper levels around the Map (wrapDeep), empty member names (also below an indexed step), keys like k\\ @type $ref 2023 !x, a key renamed to ns:key, JSON text with a duplicated top-level key, caller buffer reuse / same bytes under other options for the wrappers",
@@ -313,13 +313,13 @@ DEVICES = {
     "C10": "; wrapDeep, lists nested 1-400 deep, empty member names, separators incl. \\t and ' | ', keys like @type and !x",
     "C11": "; 4-70 wrapper levels with paths as long; key alphabets with blanks, digits, ns:name, / ~ \\ | ? #, the empty string; Go-typed container values",
     "C12": "; wrapDeep, empty member names in old and new paths, new paths ending in -id / #text / -n, x2j.XmlNewXml compared as Maps",
-    "C13": "; a document ending on a multiple of 512-8192 bytes, a document of 64-140 KiB, respelled JSON (\\/ \\u0061 N.0 blanks), file readers, cyclic schedules",
+    "C13": "; a document ending on a multiple of 512-8192 bytes, a document of 64-140 KiB, respelled JSON (\\/ \\u0061 N.0 blanks), file readers, cyclic schedules; unrelated library calls between the direct decodes and the stream and inside the handler",
     "C14": "; the JSON of the cast Map is compared leaf by leaf (type and value) with the cast Map",
     "C15": "; binary mutations of gob/JSON, name-like prefixes with reserved names, boundary indexes, wide maps",
-    "C16": "; one of the equal builds shares a sub-structure; now and then an element with 64-1025 attributes and as many children; change-in-place then re-encode",
-    "C17": "; the shared Map below 3-70 wrappers, a 1000-1200 deep chain, option setters called right before the goroutines start, fresh sub-key arguments per call",
-    "C18": "; probe document with 1, 0, T, 2^64-1, 1e999, .5 leaves; non-setter calls (also failing ones) must leave the option state alone",
-    "C19": "; a document of 64-140 KiB; control byte inside a JSON document; whole floats up to 2^64",
+    "C16": "; one of the equal builds shares a sub-structure; now and then an element with 64-1025 attributes and as many children; change-in-place then re-encode; unrelated library calls (also failing AnyXml lists) between the first and the second encoding",
+    "C17": "; the shared Map below 3-70 wrappers, a 1000-1200 deep chain, option setters called right before the goroutines start, fresh sub-key arguments per call; a third of the cases with package options (escaping, casts, prefixes) set once up front",
+    "C18": "; probe document with 1, 0, T, 2^64-1, 1e999, .5 leaves; non-setter calls (also failing ones) must leave the option state alone; look-alike white space at text edges; base taken before any setter was ever called",
+    "C19": "; a document of 64-140 KiB; control byte inside a JSON document; whole floats up to 2^64; unrelated library calls (NewMapStruct, Copy of json.Number Maps ...) before the files are read",
     "C20": "; empty member names in the value, JSON text with a duplicated key / respelled, caller buffer reuse, CastNanInf in force, list / empty / BOM documents for the j2x conversion wrappers, new keys ending in -id / #text",
 }
 for _pid, _txt in DEVICES.items():
